@@ -320,6 +320,8 @@ def call_class(I, cls, args, kwargs):
         key = f"{cls.__module__}.{cls.__qualname__}.__init__"
         obj = SObj(cls, {}, label=cls.__name__)
         c = I.reg.get(key)
+        if c is not None and key in getattr(I.contract, "inline_calls", ()):
+            c = None
         init = real_init(cls)
         if c is not None and not c.verify_only:
             I.assumed_calls.add(key)
@@ -1193,8 +1195,16 @@ def m_str(I, args, kwargs):
     raise Unsupported("str() of a symbolic value")
 
 
+def m_iter(I, args, kwargs):
+    """iter(x) for a container that is then consumed by a for loop: the container itself (one pass, not re-entrant)"""
+    if len(args) == 1 and isinstance(args[0], (SMap, SSeq, SBytes, list, tuple, dict, bytes, str, SItems)):
+        return args[0]
+    raise Unsupported("iter() of this value")
+
+
 BUILTIN_MODELS = {
     _time.time: m_time,
+    iter: m_iter,
     str: m_str,
     struct.pack: m_struct_pack,
     struct.unpack: m_struct_unpack,
@@ -1259,6 +1269,9 @@ def fstring(I, e, frame):
             continue
         if isinstance(val, SBytes) and val.kind == "str" and spec == "":
             parts.append(val)
+            continue
+        if spec == "" and isinstance(val, (tuple, list)) and _itp().has_sym(val):
+            parts.append(SBytes(z3.Const(I.path.fresh_name("text_of_value"), S.SeqI), "str"))
             continue
         if isinstance(val, (SInt, SReal, SBool)) and spec == "":
             # the decimal text of a symbolic number: an unspecified string (only ever used in messages)
